@@ -380,7 +380,7 @@ def gen_items(ctx):
             items.append((fi, ("function", "method"), b, 0, "cat"))
     ncat = len(items)
     rng = ctx.rng("chains")
-    for _ in range(ctx.n(2500, 40000)):
+    for _ in range(ctx.n(9000, 60000)):
         d = rng.randint(0, 6)
         kinds = tuple(rng.choice(FRAME_KINDS) for _ in range(d))
         mf = rng.choice([None, None, rng.randint(1, d), 0]) if d else rng.choice([None, None, 0])
